@@ -40,6 +40,13 @@ Theorem quarter_turn_is_axis : forall pl, quarter_turn pl -> pl_ca pl * pl_sa pl
 Proof. exact quarter_turn_prod. Qed.
 Print Assumptions quarter_turn_is_axis.
 
+(* for ANY cos / sin (cos(pi/2) is 6e-17 in the implementation) the quarter-turn branch never under-reports *)
+Theorem ref_bbox_corners_safe : forall S B T, is_bbox S B -> affine T -> forall p, In p S ->
+  exists X0 Y0 X1 Y1, bbox (map T (corners B)) = Box X0 Y0 X1 Y1 /\
+    X0 <= fst (T p) /\ fst (T p) <= X1 /\ Y0 <= snd (T p) /\ snd (T p) <= Y1.
+Proof. exact ref_bbox_corners_safe_lemma. Qed.
+Print Assumptions ref_bbox_corners_safe.
+
 (* hull branch *)
 Theorem ref_bbox_via_hull : forall H S, hull_ok H S -> forall T, affine T ->
   box_eq (bbox (map T H)) (bbox (map T S)).
@@ -104,6 +111,27 @@ Theorem reference_hull_explicit_rep_refuted_witness :
   In (qi 10, qi 10) (flatten f9_mid).
 Proof. exact reference_hull_explicit_rep_refuted. Qed.
 Print Assumptions reference_hull_explicit_rep_refuted_witness.
+
+(* the proposed repair of the fallback (lexicographic extremes of the input) meets the contract on every input,
+   hence the cell theorems hold for the repaired wrapper on all contents *)
+Theorem patched_wrapper_meets_contract : forall hull, (forall S, hull_ok (hull S) S) ->
+  forall S, hull_sem (convex_hull_w_fixed hull S) S.
+Proof. exact convex_hull_w_fixed_sem_lemma. Qed.
+Print Assumptions patched_wrapper_meets_contract.
+
+Theorem cell_bbox_exact_patched : forall hull, (forall S, hull_ok (hull S) S) ->
+  forall U, family_ok U -> forall c, U c -> forall ch, cache_ok U ch ->
+  box_eq (g_box (fst (cell_query (convex_hull_w_fixed hull) false c ch))) (bbox (flatten c)) /\
+  hull_sem (g_hull (fst (cell_query (convex_hull_w_fixed hull) true c ch))) (flatten c).
+Proof. exact cell_bbox_exact_patched_lemma. Qed.
+Print Assumptions cell_bbox_exact_patched.
+
+(* two opposite corners would do in the quarter-turn branch (an equivalent variant of the code) *)
+Theorem two_corners_suffice : forall pl off S x0 y0 x1 y1, pl_ca pl * pl_sa pl == 0 ->
+  is_bbox S (Box x0 y0 x1 y1) ->
+  box_eq (bbox (map (xform pl off) [(x0, y0); (x1, y1)])) (bbox (map (xform pl off) (corners (Box x0 y0 x1 y1)))).
+Proof. exact two_corners_suffice_lemma. Qed.
+Print Assumptions two_corners_suffice.
 
 (* non-vacuity *)
 Theorem hypotheses_satisfiable : family_ok ex_U /\ (forall S, hull_sem ((fun S => S) S) S) /\
